@@ -3,6 +3,7 @@ CONSTANTS
   SetPrios = {1}
   Alphabet <- AlphaNT
   K = 2
+  ReAddPinned = FALSE
   CapBase = 0
 INIT Init
 NEXT Next
